@@ -74,13 +74,19 @@ def run_single(cfg: dict, ctx, letters=None, conn_letters=None, fp=True, prior=(
 
     prior: scripts of earlier requests on the same object (non-initial states); they are forced, not explored,
     and the explored request follows at once (answers of the earlier requests may still be in flight)."""
-    world.reset()
+    world.reset(tx=cfg.get('tx_start'))
     peer = ScriptPeer(cfg['transport'], cfg['T'], None, letters, conn_letters)
     peer.default_letter = 'valid'
     if cfg.get('udp_connect'):
         peer.udp_conn_letters = ['ok', 'netunreach']
     loop = KLoop(peer, ctx=ctx)
     p = make_protocol(cfg['transport'], cfg['T'], cfg['R'], cfg['ka'])
+    if cfg.get('tx_start') is not None and not hasattr(gp, '_modbus_tcp_tx'):
+        # the counter is not reachable as a module attribute: walk up to the start state by building frames
+        c0 = p.read_command(0, 1)
+        for _ in range(70000):
+            if int.from_bytes(c0.request_bytes()[:2], 'big') == cfg['tx_start']:
+                break
     for sc in prior:
         peer.forced = list(sc)
         loop.kern.ntx = 0
